@@ -17,10 +17,11 @@ func init() {
 }
 
 type c12Scenario struct {
-	nNodes   int
-	places   []int    // node index of each connection in the chain (2 or 3 connections)
-	oldEvent []string // what each displaced session does: ping | subscribe | disconnect | close | nothing
-	when     []string // before-gossip | after-gossip | at-setup-point | at-shutdown-point
+	nNodes        int
+	places        []int    // node index of each connection in the chain (2 or 3 connections)
+	oldEvent      []string // what each displaced session does: ping | subscribe | disconnect | close | nothing
+	when          []string // before-gossip | after-gossip | at-setup-point | at-shutdown-point
+	emptyClientID bool
 }
 
 func c12Run(c *fw.Ctx, idx int, sc c12Scenario) {
@@ -51,6 +52,9 @@ func c12Run(c *fw.Ctx, idx int, sc c12Scenario) {
 		}
 	}
 	clientID := fmt.Sprintf("dup-%d", idx)
+	if sc.emptyClientID {
+		clientID = "" // the zero-length client identifier is legal with a clean session; it is an identifier like any other
+	}
 	desc := fmt.Sprintf("connections of %q on nodes %v, displaced sessions do %v (%v)", clientID, addOne(sc.places), sc.oldEvent, sc.when)
 	wit := func(extra map[string]interface{}) map[string]interface{} {
 		out := map[string]interface{}{"scenario": idx, "nodes": sc.nNodes, "places": addOne(sc.places), "old_events": sc.oldEvent, "when": sc.when}
@@ -75,7 +79,7 @@ func c12Run(c *fw.Ctx, idx int, sc c12Scenario) {
 	}
 	for k, place := range sc.places {
 		node := nodes[place]
-		id := fmt.Sprintf("%s#%d", clientID, k+1)
+		id := fmt.Sprintf("%s#%d", clientID, k+1) // as the predictable authentication handler names it
 		var release func()
 		var reached <-chan struct{}
 		if k > 0 && sc.when[k-1] == "at-setup-point" {
@@ -208,6 +212,11 @@ func c12Run(c *fw.Ctx, idx int, sc c12Scenario) {
 		}
 	}
 	cl.Quiesce()
+	if idx%2 == 1 {
+		// late retransmissions: every gossip message of the scenario arrives once more, everywhere
+		c.Observe("gossip_messages_redelivered", cl.RedeliverAllGossip())
+		cl.Quiesce()
+	}
 	if bystander >= 0 {
 		n := cl.ReleaseGossipReversed(3)
 		c.Observe("bystander_reversed_gossip_messages", n)
@@ -366,9 +375,14 @@ func runC12(c *fw.Ctx) {
 				if wh == "at-shutdown-point" && (ev == "nothing" || ev == "subscribe" || ev == "ping") {
 					continue // no teardown is triggered by these before the keep-alive exchange
 				}
-				scen = append(scen, c12Scenario{pl.n, pl.p, []string{ev}, []string{wh}})
+				scen = append(scen, c12Scenario{nNodes: pl.n, places: pl.p, oldEvent: []string{ev}, when: []string{wh}})
 			}
 		}
+	}
+	// one scenario at a time uses the zero-length identifier (two at once would displace each other)
+	emptyIDScenarios := []c12Scenario{
+		{nNodes: 1, places: []int{0, 0}, oldEvent: []string{"ping"}, when: []string{"after-gossip"}, emptyClientID: true},
+		{nNodes: 2, places: []int{0, 1}, oldEvent: []string{"nothing"}, when: []string{"after-gossip"}, emptyClientID: true},
 	}
 	rg := c.SubRng("c12", 0)
 	for i := 0; i < c.Pick(30, 600); i++ {
@@ -401,6 +415,9 @@ func runC12(c *fw.Ctx) {
 		}(i, sc)
 	}
 	wg.Wait()
+	for i, sc := range emptyIDScenarios {
+		c12Run(c, 100000+i, sc)
+	}
 	k := 0
 	for _, nn := range []int{1, 2, 3} {
 		for _, same := range []bool{true, false} {
